@@ -8,8 +8,8 @@
    shared write is not proved (reflection, third-party libraries, aliases of package-level values, the judgement
    which types are private to one session): the -race driver run is the check of that, and it samples schedules. *)
 From Coq Require Import List String NArith Bool Arith.
-From Verif Require Import model.Conc model.SharedStateAllow gen.SharedState model.ConcCorr
-  proofs.ConcProofs proofs.ConcHB proofs.ConcSites.
+From Verif Require Import model.Conc model.SharedStateAllow gen.SharedState model.ConcCorr model.FlowCache
+  proofs.ConcProofs proofs.ConcHB proofs.ConcSites proofs.FlowCacheProofs.
 Import ListNotations.
 Local Open Scope nat_scope.
 
@@ -137,3 +137,46 @@ Theorem c09_def_write_solo_refuted :
     thread_done c 1 = true /\ thread_out c 1 <> solo_out (fun u => u) p [].
 Proof. exact def_write_solo_refuted. Qed.
 Print Assumptions c09_def_write_solo_refuted.
+
+(* ---- the flow cache is a function of the source (clause "the same result it produces when run alone") ---------- *)
+
+(* look-ups run under the mutex, so concurrent sessions amount to some sequence of look-ups; whatever look-ups other
+   sessions performed before (any number, any order, by uuid or by name), a look-up answers what it answers from a cold
+   cache.  PARTIAL: for sources whose assets have pairwise different uuids (c09_duplicate_asset_uuid_refuted shows
+   the condition is needed; the static source does not enforce it) *)
+Theorem c09_cache_transparent_partial : forall src ops o,
+  NoDup (map a_uuid src) ->
+  snd (do_op src (after src ops) o) = snd (do_op src [] o).
+Proof. exact cache_transparent. Qed.
+Print Assumptions c09_cache_transparent_partial.
+
+(* ... which is the source's answer: the asset with that uuid / the first asset with that name *)
+Theorem c09_cold_cache_answers_source : forall src u n,
+  snd (get src [] u) = option_map a_def (by_uuid src u) /\ snd (FlowCache.find src [] n) = option_map a_def (by_name src n).
+Proof. exact cold_answers. Qed.
+Print Assumptions c09_cold_cache_answers_source.
+
+Theorem c09_duplicate_asset_uuid_refuted :
+  exists src ops u, snd (do_op src (after src ops) (LGet u)) <> snd (do_op src [] (LGet u)).
+Proof. exact duplicate_asset_uuid_refuted. Qed.
+Print Assumptions c09_duplicate_asset_uuid_refuted.
+
+(* the code before fix C09_flow_cache_keys (hunt findings f1, f2): cached under the uuid inside the definition ... *)
+Theorem c09_get_keyed_by_inner_uuid_refuted :
+  exists src ops u, NoDup (map a_uuid src) /\
+    snd (do_op_old src (after_old src ops) (LGet u)) <> snd (do_op_old src [] (LGet u)).
+Proof. exact get_keyed_by_inner_uuid_refuted. Qed.
+Print Assumptions c09_get_keyed_by_inner_uuid_refuted.
+
+(* ... and a name resolved from the cache first: dependent on what other sessions loaded, and on map order *)
+Theorem c09_find_cache_first_refuted :
+  exists src ops n, NoDup (map a_uuid src) /\
+    snd (do_op_old src (after_old src ops) (LFind n)) <> snd (do_op_old src [] (LFind n)).
+Proof. exact find_cache_first_refuted. Qed.
+Print Assumptions c09_find_cache_first_refuted.
+
+Theorem c09_find_cache_first_map_order_refuted :
+  exists src (c1 c2 : cache) n,
+    (forall k, cached c1 k = cached c2 k) /\ snd (find_old src c1 n) <> snd (find_old src c2 n).
+Proof. exact find_cache_first_map_order_refuted. Qed.
+Print Assumptions c09_find_cache_first_map_order_refuted.
